@@ -120,6 +120,11 @@ func bindDests() []namedDest {
 		{"*strictInt", func() any { return new(strictInt) }},
 		{"*any", func() any { var a any = "pre"; return &a }},
 		{"*any-nil", func() any { return new(any) }},
+		// interface destinations that already hold a value of the kind being bound (a re-used `var out any`): the JSON round trip still applies
+		{"*any-holding-map", func() any { var a any = map[string]any{"id": 99, "keep": true}; return &a }},
+		{"*any-holding-slice", func() any { var a any = []any{9, 9}; return &a }},
+		{"*any-holding-int", func() any { var a any = 5; return &a }},
+		{"*any-holding-user", func() any { var a any = user{ID: 1, Name: "held"}; return &a }},
 		{"*map[string]any", func() any { m := map[string]any{"keep": 1}; return &m }},
 		{"*map[string]any-nil", func() any { return new(map[string]any) }},
 		{"*map[string]int", func() any { return new(map[string]int) }},
@@ -413,6 +418,20 @@ func statefulBindProbe(dests []namedDest) storeProbe {
 				d := dests[(si*7+ki*3+j*11)%len(dests)]
 				if fk, fd := checkStoreBindNow(s, k, v, d); fk != "" {
 					return fk, fmt.Sprintf("step %d (%s): %s", si, st.Op, fd)
+				}
+			}
+			// a key that is absent stays absent however it is spelled: "<key>.<field>" of a stored map is not a key
+			if m, isMap := v.(map[string]any); isMap {
+				for f := range m {
+					dk := k + "." + f
+					if _, present := ref[dk]; present {
+						continue
+					}
+					var out any
+					if err := s.Bind(dk, &out); err == nil {
+						return "stateful-bind-absent-key", fmt.Sprintf("step %d (%s): Bind(%q) returned nil although no such key is stored (Has=%v); key %q holds a map with field %q", si, st.Op, dk, s.Has(dk), k, f)
+					}
+					break
 				}
 			}
 		}
